@@ -1,6 +1,6 @@
 (* C08 — non-vacuity examples for the hypotheses of Props.v, and refutation witnesses *)
 From Coq Require Import ZArith List Lia.
-From FV Require Import Lib.RustInt C08.Model C08.Proofs.
+From FV Require Import Lib.RustInt C08.Model C08.Proofs C08.Iter4 C08.Fits4 C08.Var14.
 Import ListNotations.
 Open Scope Z_scope.
 
@@ -42,4 +42,25 @@ Proof. vm_compute. reflexivity. Qed.
 Example charmap_mappings_keeps_10FFFF :
   charmap_mappings (records_of None (Some [(1114110, 1114111, 5)])) 10 = [(1114110, 5); (1114111, 6)]
   /\ charmap_map (records_of None (Some [(1114110, 1114111, 5)])) 1114111 = Some 6.
+Proof. vm_compute. auto. Qed.
+
+(* the example mapping is within fits4, and its format-4 iteration ends with the sentinel pair *)
+Example ex_fits4 : fits4 (canon ex_input) = true.
+Proof. vm_compute. reflexivity. Qed.
+Example ex_iter4 : forall t4 gs, from_mappings ex_input = Built (Some t4) (Some gs) ->
+  cmap4_iter t4 = [(65, 3); (66, 4); (67, 5); (97, 30); (98, 29); (99, 28); (40000, 2); (65533, 7); (65534, 8); (65535, 0)].
+Proof. intros t4 gs H. vm_compute in H. inversion H; subst. vm_compute. reflexivity. Qed.
+(* with U+FFFF mapped the sentinel contributes nothing and the pair itself is enumerated *)
+Example ex_iter4_ffff : exists t4, from_mappings [(65535, 9); (65534, 8)] = Built (Some t4) None
+  /\ cmap4_iter t4 = [(65534, 8); (65535, 9)] /\ sentinel_pairs (canon [(65535, 9); (65534, 8)]) = [].
+Proof. eexists. vm_compute. repeat split; reflexivity. Qed.
+
+(* a well-formed variation-selector table meets wf14; all three answers occur *)
+Definition ex_sels : list Sel :=
+  [(65024, Some [(48, 9); (100, 0)], Some [(65, 7); (300, 8)]); (917760, None, Some [(66, 11)]); (917761, Some [(0, 255)], None)].
+Example ex_wf14 : wf14 ex_sels.
+Proof. unfold wf14, ex_sels, wf_sel, sel_of. split; [cbn; lia|]. repeat constructor; cbn; intros x E; inversion E; subst; cbn; lia. Qed.
+Example ex_var14 : cmap14_map_variant ex_sels 50 65024 = Some None /\ cmap14_map_variant ex_sels 300 65024 = Some (Some 8)
+  /\ cmap14_map_variant ex_sels 58 65024 = None /\ cmap14_map_variant ex_sels 66 65025 = None
+  /\ cmap14_map_variant ex_sels 255 917761 = Some None.
 Proof. vm_compute. auto. Qed.
